@@ -14,6 +14,7 @@ RULE = ('enumeration: for each transaction shape (read / write x with / without 
         'bus frames of the transaction; one run per (frame k before the closing DM14, intruder kind, repeat count): an intruding DM14 is put on the bus right after '
         'frame k, from a third source address or from the running requester\'s address with another pointer, once or three times. Sampled runs draw sizes, latencies, '
         'seeds and k. non-trivial = the intruding frame reached the server inside the transaction window; distinct = distinct scenario JSON')
+FAULT_COUNTERS = {'intruding DM14 frames': 'intrusions'}
 REQUIRED_PROBES = ['intrusions', 'busy_replies', 'other_sa_runs', 'own_sa_runs', 'client_result_unchanged']
 ASSUMPTIONS = ['the transaction window ends when the server has received the closing DM14; under per-receiver FIFO an intruder put on the bus after the closing frame arrives '
                'outside the window and may legitimately start a new transaction, so injection points are the frames before the closing one',
